@@ -54,7 +54,7 @@ template <typename F> static std::string sdft(const Args& a)
 }
 template <typename F> static std::string sdft1(const Args& a)
 {
-    SlidingDFT<F, 48000, 3000, 400> d;     // damped single-bin variant, N = 120
+    SlidingDFT<F, 48000, 3200, 400> d;     // damped single-bin variant, N = 120, bin 8 (the frequency must be a multiple of the resolution)
     std::vector<long long> r;
     for (size_t i = 1; i < a.size(); ++i) {
         auto v = d(F(a[i]) / F(4096));
